@@ -427,6 +427,10 @@ struct Runner {
     extra_lines: Vec<String>,
     /// `total_count` of the last paginated search
     last_total: Option<usize>,
+    /// the last operation was an Auto-strategy filtered search of a collection LARGER than the
+    /// selectivity sample: which keys the estimate samples is the order of a HashSet the store scan
+    /// builds afresh on every call, so nobody outside the call can know which arm Auto took
+    auto_big: bool,
 }
 
 fn verr(e: &VectorError) -> &'static str {
@@ -466,7 +470,7 @@ impl Runner {
         }
     }
     fn with_engine(eng: VectorEngine) -> Runner {
-        Runner { eng, dflt: Space::default(), named: BTreeMap::new(), cfgs: BTreeMap::new(), extra_lines: Vec::new(), last_total: None }
+        Runner { eng, dflt: Space::default(), named: BTreeMap::new(), cfgs: BTreeMap::new(), extra_lines: Vec::new(), last_total: None, auto_big: false }
     }
     fn repr_of(&self, storage_key: &str) -> String {
         match self.eng.store().get(storage_key) {
@@ -865,7 +869,9 @@ impl Runner {
                 let ann = if *strat == Strat::Pre { None } else { ann_keys(&self.dflt, &qf, (*k * *os).max(*k)) };
                 let res = conv(self.eng.search_similar_filtered(&qf, *k, &f.cond(), cfg));
                 if let Ok(r) = &res {
+                    let from = viol.len();
                     oracle(&format!("{}[{}]", op.tag(), strat.name()), r, q, *k, Metric::Cos, &self.dflt, Some(f), *strat != Strat::Pre, viol);
+                    narrow_filtered_miss(&mut viol[from..], *strat, r, q, *k, *os, Metric::Cos, &self.dflt, f);
                 }
                 Obs::Search { res, ann }
             }
@@ -882,14 +888,77 @@ impl Runner {
             }
             Op::CSearchF { c, q, k, strat, os, f } => {
                 let cfg = filt_cfg(*strat, *os);
+                self.auto_big = *strat == Strat::Auto && self.named.get(c).map_or(0, |s| s.items.len()) > AUTO_SAMPLE;
                 let res = conv(self.eng.search_filtered_in_collection(c, &f32s(q), *k, &f.cond(), cfg));
                 let empty = Space::default();
                 let sp = self.named.get(c).unwrap_or(&empty);
                 if let Ok(r) = &res {
+                    let from = viol.len();
                     oracle(&format!("{}[{}]", op.tag(), strat.name()), r, q, *k, self.coll_metric(c), sp, Some(f), *strat != Strat::Pre, viol);
+                    narrow_filtered_miss(&mut viol[from..], *strat, r, q, *k, *os, self.coll_metric(c), sp, f);
                 }
                 Obs::Search { res, ann: None }
             }
+        }
+    }
+}
+
+/// sample size of the Auto strategy's selectivity estimate (`100.min(keys.len())`)
+const AUTO_SAMPLE: usize = 100;
+
+/// A completeness failure (`missed_match` / `not_topk`) of a FILTERED search is filed by what can
+/// explain it.  The only documented incompleteness is the post-filter strategy's: it filters the
+/// `max(k*os, k)` most similar vectors, so it may miss a qualifying vector that is NOT among them.
+/// Every qualifying vector scoring strictly better than the pool's last place IS in the pool whatever
+/// the tie order, so the first `min(k, g)` places (g = number of such vectors; all qualifying ones when
+/// the pool covers the collection) are owed by every strategy.  A deviation there — or any deviation
+/// of the explicit pre-filter strategy, which owes the exact answer — gets its own kind and is never
+/// absorbed by the post-filter class.
+#[allow(clippy::too_many_arguments)]
+fn narrow_filtered_miss(viol: &mut [Viol], strat: Strat, res: &[(String, f32)], q: &[i64], k: usize, os: usize, m: Metric, sp: &Space, f: &F) {
+    if !viol.iter().any(|v| v.kind == "missed_match" || v.kind == "not_topk") {
+        return;
+    }
+    // Auto MUST have taken the pre-filter strategy when fewer than 10 % of EVERY possible sample match:
+    // a sample of min(100, n) keys holds at most all `hits` matching entries of the collection
+    let n = sp.items.len();
+    let hits = sp.items.values().filter(|(_, md)| f.eval(md)).count();
+    let auto_forced_pre = strat == Strat::Auto && !matches!(f, F::T) && n > 0 && 10 * hits < n.min(AUTO_SAMPLE);
+    let kind: &'static str = if strat == Strat::Pre || auto_forced_pre {
+        "prefilter_not_topk"
+    } else {
+        let kv = |v: &Vec<i64>| {
+            let (p, r) = ingredients(m, q, v);
+            key_fn(m, p, r)
+        };
+        let mut all: Vec<(i128, i128)> = sp.items.values().filter(|(v, _)| v.len() == q.len()).map(|(v, _)| kv(v)).collect();
+        all.sort_by(|x, y| key_cmp(*y, *x));
+        let mut qual: Vec<(i128, i128)> = sp.items.values().filter(|(v, md)| v.len() == q.len() && f.eval(md)).map(|(v, _)| kv(v)).collect();
+        qual.sort_by(|x, y| key_cmp(*y, *x));
+        let pool = k.saturating_mul(os).max(k);
+        let g = if all.len() <= pool { qual.len() } else { qual.iter().filter(|x| key_cmp(**x, all[pool - 1]) == Ordering::Greater).count() };
+        let owed = k.min(g);
+        // first place at which the answer deviates from the exact filtered ranking
+        let mut dev = res.len().min(qual.len());
+        for (i, (key, _)) in res.iter().enumerate().take(qual.len()) {
+            let ok = sp.items.get(key).map_or(false, |(v, _)| v.len() == q.len() && {
+                let kr = kv(v);
+                key_cmp(kr, qual[i]) == Ordering::Equal || (m == Metric::Cos && near(frac(kr), frac(qual[i])))
+            });
+            if !ok {
+                dev = i;
+                break;
+            }
+        }
+        if dev < owed {
+            "not_topk_inside_oversample_pool"
+        } else {
+            return;
+        }
+    };
+    for v in viol.iter_mut() {
+        if v.kind == "missed_match" || v.kind == "not_topk" {
+            v.kind = kind;
         }
     }
 }
@@ -1592,7 +1661,7 @@ fn run_seq(cx: &mut Ctx, stream: &str, ops: &[Op]) {
     cx.m.ask("reset");
     let mut nontrivial_search = false;
     let mut mutated = false;
-    let mut first_violation: Option<(usize, String, &'static str, String)> = None;
+    let mut first_violations: Vec<(usize, String, &'static str, String)> = Vec::new();
     for (i, op) in ops.iter().enumerate() {
         let live_before = match op {
             Op::Search { .. } | Op::SearchF { .. } | Op::SearchP { .. } => r.dflt.index_live(),
@@ -1616,7 +1685,31 @@ fn run_seq(cx: &mut Ctx, stream: &str, ops: &[Op]) {
             }
             _ => op.line(),
         };
-        let ans = cx.m.ask(&line);
+        let ans = match (&obs, op) {
+            // Auto over a collection larger than its sample: the Lean theorem
+            // coll_filtered_is_pre_or_post_for_every_scan says the answer is that of the pre-filter arm
+            // or of the post-filter arm, whatever the scan order was — the engine's answer is compared
+            // with the arm it agrees with (with the pre-filter arm when it agrees with neither)
+            (Obs::Search { res, .. }, Op::CSearchF { c, q, k, strat: Strat::Auto, os, f }) if r.auto_big => {
+                cx.rep.hit("search_filtered_in_collection.auto.collection_larger_than_sample");
+                let pre = cx.m.ask(&format!("csearchf {c} {} {k} pre {os} {}", ints(q), f.rpn()));
+                let post = cx.m.ask(&format!("csearchf {c} {} {k} post {os} {}", ints(q), f.rpn()));
+                let agrees = |rep: &mut Report, ans: &str| {
+                    let (a, b) = compare_search(rep, stream, &op.line(), res, &parse_model(ans), None);
+                    a == b
+                };
+                if agrees(cx.rep, &pre) {
+                    cx.rep.hit("search_filtered_in_collection.auto.big.answer_of_prefilter_arm");
+                    pre
+                } else if agrees(cx.rep, &post) {
+                    cx.rep.hit("search_filtered_in_collection.auto.big.answer_of_postfilter_arm_only");
+                    post
+                } else {
+                    pre
+                }
+            }
+            _ => cx.m.ask(&line),
+        };
         match &obs {
             Obs::Plain(s) => {
                 if s.starts_with("ok") && op.is_mutation() {
@@ -1705,11 +1798,13 @@ fn run_seq(cx: &mut Ctx, stream: &str, ops: &[Op]) {
             let a = cx.m.ask(&l);
             cx.rep.compare(&format!("{stream}.invalidate_hnsw_cache"), || json!({"ops": ops_json(&ops[..=i]), "extra": l}), "ok", &a);
         }
-        if first_violation.is_none() {
-            if let Some(v) = viol.into_iter().next() {
-                // recorded once per sequence; the run continues (the shadow tracks the intended
-                // state, the model the code's state: neither is disturbed by a failed oracle)
-                first_violation = Some((i, v.site, v.kind, v.what));
+        // the first violation of each KIND is recorded once per sequence (an earlier failure of a known
+        // kind must not hide a later one of another kind); the run continues (the shadow tracks the
+        // intended state, the model the code's state: neither is disturbed by a failed oracle)
+        for v in viol {
+            let completeness = |k: &str| k == "missed_match" || k == "not_topk";
+            if !first_violations.iter().any(|(_, _, k, _)| *k == v.kind || (completeness(k) && completeness(v.kind))) {
+                first_violations.push((i, v.site, v.kind, v.what));
             }
         }
     }
@@ -1718,7 +1813,7 @@ fn run_seq(cx: &mut Ctx, stream: &str, ops: &[Op]) {
     if cx.rep.samples.len() < 4 {
         cx.rep.sample(json!({"stream": stream, "ops": ops_json(&ops[..ops.len().min(12)])}));
     }
-    if let Some((at, site, kind, what)) = first_violation {
+    for (at, site, kind, what) in first_violations {
         cx.rep.hit(&format!("violation.{kind}"));
         // shrink on "the same kind of violation still occurs", then classify the shrunk trace
         let prefix = &ops[..=at];
@@ -1941,6 +2036,154 @@ fn directed() -> Vec<(&'static str, Vec<Op>)> {
             vec![s("a", &[1, 2]), s("b", &[2, 4]), s("c", &[-1, -2]), s("d", &[1, 2, 3]), s("z", &[0, 0]), se(&[3, 6], 2), se(&[3, 6], 50), Op::SearchM { m: Metric::Euc, q: vec![0, 0], k: 3 }, Op::SearchM { m: Metric::Dot, q: vec![1, 1], k: 4 }],
         ),
     ]
+}
+
+// ------------------------------------------------------------------ collections larger than the Auto sample
+
+fn big_vec(i: usize, dim: usize) -> Vec<i64> {
+    let mut v: Vec<i64> = (0..dim).map(|d| ((i * (7 + 6 * d) + 3 * d) % 61) as i64 - 30).collect();
+    if v.iter().all(|x| *x == 0) {
+        v[0] = 1;
+    }
+    v
+}
+/// metadata of the `i`-th vector: `g` = i (unique), `t` = i % 10 (10 % per value), `h` = i % 2 (50 %),
+/// `r` = i % 33 (~3 % per value), `z` = 1 on the `rare` positions only
+fn big_md(i: usize, rare: &[usize]) -> Md {
+    let mut md: Md = vec![("g".to_string(), i as i64), ("t".to_string(), (i % 10) as i64), ("h".to_string(), (i % 2) as i64), ("r".to_string(), (i % 33) as i64)];
+    if rare.contains(&i) {
+        md.push(("z".to_string(), 1));
+    }
+    md
+}
+fn big_stores(c: &str, n: usize, dim: usize, rare: &[usize]) -> Vec<Op> {
+    (0..n).map(|i| Op::CStore { c: c.into(), key: format!("v{i}"), v: big_vec(i, dim), md: big_md(i, rare) }).collect()
+}
+fn eqf(field: &str, v: i64) -> F {
+    F::Cmp("eq", field.to_string(), v)
+}
+
+/// Named collections with MORE vectors than the Auto strategy samples (100): every filter strategy,
+/// selectivities 0 % / ~1-3 % / 10 % / 50 % / 100 %.  Which keys the estimate samples is the store's
+/// business (hash order), so the minimal history is made order independent: each of the 101 vectors
+/// carries its own tag value and is asked for by its tag — for every scan order one of them lies
+/// outside the first 100 keys.  Post-filter / non-selective Auto searches oversample the whole
+/// collection, so every search here owes the exact filtered top-k.
+fn big_directed() -> Vec<(&'static str, Vec<Op>)> {
+    let sf = |c: &str, q: &[i64], k: usize, strat: Strat, os: usize, f: F| Op::CSearchF { c: c.into(), q: q.to_vec(), k, strat, os, f };
+    let mut out = Vec::new();
+    // 1. the minimal history: 101 vectors, Auto, a filter only one vector satisfies, asked for each vector
+    let mut ops = big_stores("big", 101, 2, &[]);
+    for i in 0..101 {
+        ops.push(sf("big", &[1, 0], 1, Strat::Auto, 3, eqf("g", i as i64)));
+    }
+    out.push(("bigcoll.auto-selective-each-of-101", ops));
+    // 2. its neighbours: exactly 100 (everything sampled), 101 and 150; every strategy x selectivity
+    for (name, n, metric) in [("bigcoll.strategies-100", 100usize, Metric::Cos), ("bigcoll.strategies-101", 101, Metric::Cos), ("bigcoll.strategies-150-euclid", 150, Metric::Euc)] {
+        let mut ops = Vec::new();
+        if metric != Metric::Cos {
+            ops.push(Op::Create { c: "big".into(), dim: None, m: metric });
+        }
+        let rare = [n - 1, n - 2, n / 2];
+        ops.extend(big_stores("big", n, 2, &rare));
+        let filters = [eqf("g", -1), eqf("z", 1), eqf("r", 5), F::Cmp("ge", "g".into(), n as i64 - 4), eqf("t", 3), eqf("h", 1), F::Ex("g".into()), F::T];
+        for f in &filters {
+            for strat in [Strat::Auto, Strat::Pre, Strat::Post] {
+                // post-filter (requested or chosen) over a pool that covers the collection: exact
+                let os = if strat == Strat::Pre { 3 } else { n };
+                ops.push(sf("big", &[3, -2], 5, strat, os, f.clone()));
+            }
+        }
+        // selective filters under Auto with the DEFAULT oversample: the estimate must pick pre-filter
+        for f in [eqf("z", 1), eqf("r", 5), F::Cmp("ge", "g".into(), n as i64 - 4)] {
+            ops.push(sf("big", &[-1, 4], 4, Strat::Auto, 3, f));
+        }
+        // delete / overwrite some of the rare ones and ask again
+        ops.push(Op::CDel { c: "big".into(), key: format!("v{}", n - 1) });
+        ops.push(Op::CStore { c: "big".into(), key: format!("v{}", n / 2), v: vec![9, 9], md: big_md(n / 2, &[]) });
+        ops.push(Op::CStore { c: "big".into(), key: "late".into(), v: vec![-1, 4], md: vec![("z".to_string(), 1)] });
+        ops.push(sf("big", &[-1, 4], 4, Strat::Auto, 3, eqf("z", 1)));
+        ops.push(sf("big", &[-1, 4], 4, Strat::Pre, 3, eqf("z", 1)));
+        out.push((name, ops));
+    }
+    out
+}
+
+/// random histories of that shape: one collection of 101..=400 low-dimensional vectors, 1..=6 `rare`
+/// vectors (so that Auto must pre-filter `z == 1`) at random places — with n keys and m rare ones at
+/// least one lies outside the sampled 100 with probability 1 - (100/n)^m — then searches with every
+/// strategy setting and selectivity, a few deletes / overwrites / late stores, and searches again
+fn big_gen(r: &mut Rng) -> Vec<Op> {
+    let n = 101 + r.below(300) as usize;
+    let dim = 2 + r.below(2) as usize;
+    let c = "big".to_string();
+    let mut ops = Vec::new();
+    match r.below(4) {
+        0 => ops.push(Op::Create { c: c.clone(), dim: None, m: Metric::Euc }),
+        1 => ops.push(Op::Create { c: c.clone(), dim: Some(dim), m: Metric::Dot }),
+        _ => {}
+    }
+    let m = 1 + r.below(6) as usize;
+    let mut rare: Vec<usize> = Vec::new();
+    while rare.len() < m {
+        let i = r.below(n as u64) as usize;
+        if !rare.contains(&i) {
+            rare.push(i);
+        }
+    }
+    ops.extend(big_stores(&c, n, dim, &rare));
+    let q = |r: &mut Rng| -> Vec<i64> {
+        let mut v: Vec<i64> = (0..dim).map(|_| r.range(-9, 9)).collect();
+        if v.iter().all(|x| *x == 0) {
+            v[0] = 2;
+        }
+        v
+    };
+    let search = |r: &mut Rng, ops: &mut Vec<Op>| {
+        let f = match r.below(10) {
+            0 => eqf("g", -1),
+            1 | 2 | 3 => eqf("z", 1),
+            4 => eqf("r", r.range(0, 32)),
+            5 => F::And(Box::new(eqf("z", 1)), Box::new(eqf("h", r.range(0, 1)))),
+            6 => eqf("t", r.range(0, 9)),
+            7 => eqf("h", r.range(0, 1)),
+            8 => F::Ex("g".into()),
+            _ => F::Cmp("ge", "g".into(), n as i64 - 1 - r.range(0, 8)),
+        };
+        let strat = *r.pick(&[Strat::Auto, Strat::Auto, Strat::Auto, Strat::Pre, Strat::Post]);
+        let k = 1 + r.below(12) as usize;
+        // Auto must pre-filter when fewer than 10 % of every sample can match (at most 6 rare + 3 late stores of them);
+        // otherwise the pool covers the collection, so the post-filter answer is exact too
+        let selective = matches!(&f, F::Cmp("eq", fld, _) if fld == "z" || fld == "g") || matches!(&f, F::And(..));
+        let os = if strat == Strat::Pre || (strat == Strat::Auto && selective && r.chance(1, 2)) { 1 + r.below(4) as usize } else { n + 8 };
+        ops.push(Op::CSearchF { c: "big".into(), q: q(r), k, strat, os, f });
+    };
+    for _ in 0..4 + r.below(4) {
+        search(r, &mut ops);
+    }
+    for _ in 0..r.below(4) {
+        match r.below(3) {
+            0 => ops.push(Op::CDel { c: c.clone(), key: format!("v{}", r.pick(&rare)) }),
+            1 => {
+                let i = r.below(n as u64) as usize;
+                ops.push(Op::CStore { c: c.clone(), key: format!("v{i}"), v: q(r), md: big_md(i, &rare) });
+            }
+            _ => ops.push(Op::CStore { c: c.clone(), key: format!("late{}", r.below(3)), v: q(r), md: vec![("z".to_string(), 1)] }),
+        }
+    }
+    for _ in 0..2 + r.below(3) {
+        search(r, &mut ops);
+    }
+    ops
+}
+
+fn big_stream(cx: &mut Ctx, root: &Rng, scale: u64) {
+    let base = root.fork("bigcoll");
+    for i in 0..8 * scale {
+        let mut r = base.fork(&i.to_string());
+        let ops = big_gen(&mut r);
+        run_seq(cx, "bigcoll", &ops);
+    }
 }
 
 // ------------------------------------------------------------------ outside the quantifier
@@ -3421,6 +3664,7 @@ fn main() {
     rep.note("model = /repo with a71cd63e (every mutation invalidates the cached index), B1 = 768f5ff8 (cached index consulted only for a query of the indexed dimension), B2 = b8d4bd8e (collection pre-filter scores with the collection's metric), 4fa63773 (build_and_cache_index caches storage keys) and 733b279c (search_with_hnsw / search_with_hnsw_and_metric refuse a query of another dimension than the index); post-filter search is modelled as it is (oversample, then filter) and its misses are reported by the oracle as the known findings vector_engine.search_similar_filtered/not_topk and vector_engine.search_filtered_in_collection/not_topk (directed reproductions run first)");
     rep.note("storage-key layer (streams directed.ns.*, ns): keys / collection names from an alphabet built to collide (emb:x next to x, b:emb:k, coll:a:emb:k; collections a, a:emb:b, a:emb, _default) on the real engine against the Lean model of the flat store and the cache slots (NsModel.lean); the oracle is the property against what was stored through the API in the searched collection (exact top-k: few vectors, so a cached index is exact). Its failures are classified from the answer and the history: vector_engine.search_similar/cached_index_strips_key_prefix (regression class of 4fa63773), and the known findings vector_engine.search_in_collection/default_cache_slot_shared (confirmed by replay with the slot invalidated) and vector_engine.search_in_collection/collection_prefix_overlap (another stored (collection, key) has the same storage key); directed reproductions run first on every run. The harness, as a caller of cache_hnsw_index, caches storage keys and never puts a named collection's index into slot _default");
     rep.note("explicit-index entry points (op search_with_hnsw / search_with_hnsw_and_metric in the default streams, directed.explicit-index-*): build_hnsw_index over the current default collection, then the search on the returned index and key list; a query of another dimension than the indexed vectors must be refused (anything else, a panic included, is vector_engine.<entry point>/query_dimension_not_checked, the regression class of 733b279c); otherwise keys, order and scores are judged, and with at most 32 vectors the exact top-k (stream *.small_index_is_exact). search_with_hnsw_and_metric is run with ExtendedDistanceMetric::Cosine; its (cos+1)/2 similarity is mapped back to the cosine scale, the re-ranking itself is not modelled");
+    rep.note("collections larger than the Auto selectivity sample (streams directed.bigcoll.*, bigcoll): named collections of 100..=400 two/three-dimensional integer vectors, every strategy setting (Auto / PreFilter / PostFilter) x filters matching 0 % / 1-9 vectors / ~3 % / 10 % / 50 % / 100 %, the few matching vectors at arbitrary places of the store's scan order (directed: each of 101 vectors asked for by its own tag, so one lies outside the sampled 100 keys whatever the order), deletes / overwrites / late stores in between; which keys the estimate samples is the iteration order of a HashSet the store scan builds afresh on every call, so the engine's Auto answer is compared with the model's pre-filter arm or post-filter arm, whichever it agrees with (Lean: coll_filtered_is_pre_or_post_for_every_scan); post-filter searches there oversample the whole collection, so EVERY search owes the exact filtered top-k. Completeness failures of filtered searches are filed by what can explain them: <entry point>/prefilter_not_topk (explicit PreFilter, or Auto when fewer than 10 % of every possible sample match), <entry point>/not_topk_inside_oversample_pool (a qualifying vector strictly inside the oversample pool is missing: no strategy may lose it); only what is left is the post-filter class <entry point>/not_topk");
     let root = Rng::new(args.seed);
     let scale: u64 = if args.thorough { 12 } else { 1 };
 
@@ -3433,6 +3677,11 @@ fn main() {
         for (name, ops) in directed() {
             run_seq(&mut cx, &format!("directed.{name}"), &ops);
         }
+        // collections larger than the Auto strategy's selectivity sample (every strategy x selectivity)
+        for (name, ops) in big_directed() {
+            run_seq(&mut cx, &format!("directed.{name}"), &ops);
+        }
+        big_stream(&mut cx, &root, scale);
         // node representations x index metrics: a collection answered from a cached index of its metric,
         // then the index itself with every way of inserting a vector
         for (name, m, ops) in emb_directed() {
@@ -3464,6 +3713,7 @@ fn main() {
         "emb.search.via_index.euclid.sparse_nodes", "emb.search.via_index.dot.sparse_nodes", "emb.search.via_index.cosine.sparse_nodes", "emb.search.via_index.euclid.dense_nodes", "emb.model.ranked.euclid",
         "hnsw.storage.node.auto.sparse", "hnsw.storage.node.auto.dense", "hnsw.storage.node.sparse.sparse", "hnsw.storage.metric.euclid", "hnsw.storage.metric.dot", "hnsw.storage.metric.cosine",
         "hnsw.storage.small_index_regime", "hnsw.storage.approximate_regime", "hnsw.node_storage.auto", "hnsw.node_storage.mixed", "explicit_index.euclid.auto", "explicit_index.dot.auto", "explicit_index.cosine.auto",
+        "search_filtered_in_collection.auto.collection_larger_than_sample",
     ]
         .iter()
         .map(|s| s.to_string())
